@@ -218,12 +218,32 @@ class Gen(object):
         return 'print(' + self.osp() + self.comma().join(names) + self.osp() + ')'
 
     # -- targets --------------------------------------------------------------------------
+    def pname(self, n, p=0.14):
+        """a target name, sometimes in (redundant) parentheses: on one line, with inner blanks, spanning lines"""
+        r = self.r
+        if r.random() >= p:
+            return n
+        self.feat.add('parenthesised-target')
+        x = r.random()
+        if x < 0.35:
+            out = '(' + n + ')'
+        elif x < 0.6:
+            out = '(' + r.choice([' ', '  ', '\t']) + n + r.choice([' ', '', '  ']) + ')'
+        elif x < 0.7:
+            out = '((' + self.osp() + n + ')' + self.osp() + ')'
+        else:
+            self.feat.add('parenthesised-target-multiline')
+            c = ('  ' + self.comment([n])) if r.random() < 0.3 else ''
+            out = '(' + c + '\n' + ' ' * r.randint(0, 8) + n + (('  ' + self.comment([n])) if r.random() < 0.2 else '') + \
+                '\n' + ' ' * r.randint(0, 6) + ')'
+        return out
+
     def target(self, depth=0, allow_bare=True, p_simple=0.55):
         """-> (text, [names])"""
         r = self.r
         if depth > 0 and r.random() < 0.7 or depth == 0 and r.random() < p_simple:
             n = self.name()
-            return n, [n]
+            return self.pname(n), [n]
         k = r.randint(2, 4)
         names_used = []
         parts = []
@@ -231,7 +251,7 @@ class Gen(object):
         for j in range(k):
             if j == star_at:
                 n = self.name()
-                parts.append('*' + (' ' if r.random() < 0.1 else '') + n)
+                parts.append('*' + (' ' if r.random() < 0.1 else '') + self.pname(n, 0.08))
                 names_used.append(n)
                 self.feat.add('starred-target')
             elif depth < 2 and r.random() < 0.3:
@@ -241,7 +261,7 @@ class Gen(object):
                 self.feat.add('nested-tuple-target')
             else:
                 n = self.name()
-                parts.append(n)
+                parts.append(self.pname(n))
                 names_used.append(n)
         # distinct names only (a, a = ... is legal but pointless)
         if len(set(names_used)) != len(names_used):
@@ -398,13 +418,22 @@ class Gen(object):
             n = self.name()
             self.bind(n)
             self.feat.add('annotated-assignment')
-            return n + self.osp() + ':' + self.osp() + 'int' + self.osp() + '=' + self.osp() + self.value()
+            return self.pname(n, 0.25) + self.osp() + ':' + self.osp() + 'int' + self.osp() + '=' + self.osp() + self.value()
         if x < 0.22:
             n = self.name()
             self.feat.add('walrus')
             s = 'print(' + self.osp() + '(' + self.osp() + n + self.osp() + ':=' + self.osp() + self.value() + self.osp() + ')' + self.comma() + n + ')'
             self.bind(n)
             return s
+        if x < 0.34:
+            n = r.choice(self.bound) if r.random() < 0.6 else self.name()
+            self.feat.add('augmented-assignment')
+            self.bind(n)
+            return self.pname(n, 0.4) + self.osp() + r.choice(['+=', '-=', '*=', '|=', '//=', '>>=']) + self.osp() + self.value()
+        if x < 0.38:
+            self.feat.add('del-statement')
+            ns = r.sample(self.bound, min(len(self.bound), r.randint(1, 2)))
+            return 'del' + self.sp() + self.comma().join(self.pname(n, 0.4) for n in ns)
         chain = 1 if x < 0.8 else r.randint(2, 3)
         out = ''
         bound = []
@@ -641,15 +670,88 @@ class Gen(object):
         self.bind(name)
         return out + head + body
 
+    def rebinding(self, n, v):
+        """`n = v` in one of its spellings (plain, parenthesised, augmented, annotated is not allowed for globals)"""
+        r = self.r
+        x = r.random()
+        if x < 0.55:
+            return self.pname(n, 0.2) + self.osp() + '=' + self.osp() + v
+        if x < 0.8:
+            self.feat.add('augmented-assignment')
+            return self.pname(n, 0.3) + self.osp() + r.choice(['+=', '-=', '*=']) + self.osp() + v
+        m = self.name()
+        return m + self.comma() + self.pname(n, 0.2) + self.osp() + '=' + self.osp() + v + ', ' + v
+
+    def declared_block(self, indent):
+        """bindings made through global / nonlocal declarations, on lines with several statements where a read
+        of the name stands LEFT of the binding; further reads on other lines (inside and outside the scope)"""
+        r = self.r
+        self.gid = getattr(self, 'gid', 0) + 1
+        k = self.gid
+        u = self.unit()
+        i1, i2 = indent + u, indent + u + u
+        x = r.random()
+        if x < 0.5:
+            self.feat.add('global-in-function-same-line-read')
+            g = 'gv%d' % k
+            fn = r.choice(['bump', 'tick', 'd', 'upd']) + str(k)
+            out = indent + g + self.osp() + '=' + self.osp() + '0\n' if r.random() < 0.6 else ''
+            out += indent + 'def' + self.sp(cont=False) + fn + '(step):\n'
+            line = self.read([g]) + self.semi() + self.rebinding(g, 'step')
+            if r.random() < 0.5:
+                out += i1 + 'global' + self.sp() + g + '\n' + i1 + line + '\n'
+            else:
+                out += i1 + 'global' + self.sp() + g + self.semi() + line + '\n'
+            if r.random() < 0.6:
+                out += i1 + self.read([g, 'step']) + '\n'
+            if r.random() < 0.4:
+                out += i1 + 'return' + self.sp(cont=False) + g + '\n'
+            out += indent + self.read([g, fn]) + '\n'
+            self.bind(g, fn)
+            return out
+        if x < 0.72:
+            self.feat.add('global-in-class-body-same-line-read')
+            g = 'cg%d' % k
+            cn = 'G%d' % k
+            out = indent + g + ' = 0\n' if r.random() < 0.5 else ''
+            out += indent + 'class' + self.sp(cont=False) + cn + self.osp() + ':\n'
+            line = 'global' + self.sp() + g + self.semi() + self.read([g]) + self.semi() + self.rebinding(g, '1')
+            out += i1 + line + '\n'
+            if r.random() < 0.5:
+                out += i1 + 'attr' + self.osp() + '=' + self.osp() + g + self.semi() + self.rebinding(g, '2') + '\n'
+            out += indent + self.read([g, cn]) + '\n'
+            self.bind(g, cn)
+            return out
+        self.feat.add('nonlocal-same-line-read')
+        g = 'nl%d' % k
+        fo, fi = 'outer%d' % k, 'inner%d' % k
+        out = indent + 'def' + self.sp(cont=False) + fo + '():\n'
+        out += i1 + g + self.osp() + '=' + self.osp() + '0\n'
+        out += i1 + 'def' + self.sp(cont=False) + fi + '(step=1):\n'
+        line = self.read([g]) + self.semi() + self.rebinding(g, 'step')
+        if r.random() < 0.5:
+            out += i2 + 'nonlocal' + self.sp() + g + '\n' + i2 + line + '\n'
+        else:
+            out += i2 + 'nonlocal' + self.sp() + g + self.semi() + line + '\n'
+        if r.random() < 0.5:
+            out += i2 + self.read([g]) + '\n'
+        out += i1 + self.read([g, fi]) + self.semi() + self.rebinding(g, '5') + '\n'
+        out += i1 + 'return' + self.sp(cont=False) + fi + '\n'
+        out += indent + self.read([fo]) + '\n'
+        self.bind(fo)
+        return out
+
     # -- compound statements ------------------------------------------------------------------
     def statement(self, indent, depth, in_func, in_async=False, in_class=False):
         r = self.r
         if self.budget <= 0:
             return indent + 'pass\n'
         x = r.random()
-        if x < 0.42 or depth >= 4:
+        if x < 0.38 or depth >= 4:
             return indent + self.simple_line(in_func) + '\n'
         self.budget -= 1
+        if x < 0.45:
+            return self.declared_block(indent)
         if x < 0.54:
             return self.funcdef(indent, depth, in_async, in_class)
         if x < 0.6:
